@@ -73,7 +73,7 @@ func lockCoverage(src *hx.Src, recv string) (locked, unlocked []string, err erro
 
 func extract(a hx.ExtractArgs) error {
 	lf := hx.NewLeanFile("Gms.Generated.C36", "processlist.go", "engine.go", "sql/core.go", "sql/memory.go", "sql/analyzer/catalog.go",
-		"sql/variables/status_variables.go", "server/handler.go")
+		"sql/variables/status_variables.go", "server/handler.go", "sql/information_schema/information_schema.go", "sql/planbuilder/from.go")
 
 	// 1. the shared registries and their locks
 	for _, x := range []struct{ file, recv, name string }{
@@ -302,5 +302,36 @@ func extract(a hx.ExtractArgs) error {
 		return true
 	})
 	lf.DefStringList("handlerBracket", order)
+
+	// 7. the code shape of the listed finding infoschema_assign_catalog_race
+	is, err := hx.ParseSrc(a.Repo, "sql/information_schema/information_schema.go")
+	if err != nil {
+		return err
+	}
+	ac, err := is.Func("InformationSchemaTable", "AssignCatalog")
+	if err != nil {
+		return err
+	}
+	var body []string
+	for _, st := range ac.Body.List {
+		body = append(body, is.Text(st))
+	}
+	lf.DefStringList("infoSchemaAssignCatalogBody", body)
+	fr, err := hx.ParseSrc(a.Repo, "sql/planbuilder/from.go")
+	if err != nil {
+		return err
+	}
+	brt, err := fr.Func("Builder", "buildResolvedTable")
+	if err != nil {
+		return err
+	}
+	assigns := false
+	ast.Inspect(brt.Body, func(nd ast.Node) bool {
+		if ce, ok := nd.(*ast.CallExpr); ok && strings.HasSuffix(selText(ce.Fun), ".AssignCatalog") {
+			assigns = true
+		}
+		return true
+	})
+	lf.DefBool("buildResolvedTableAssignsCatalog", assigns)
 	return lf.Write(a.Out)
 }
